@@ -238,8 +238,9 @@ class BaseFileLock(abc.ABC):
             except:  # noqa
                 _logger.exception("Failed to release lock %s on %s", lid, fn)
             else:
-                self._lock_counter = 0
                 _logger.info('Lock %s released on %s', lid, fn)
+            # The file descriptor is gone even if unlocking it failed
+            self._lock_counter = 0
 
         try:
             for _ in range(levels):
